@@ -91,13 +91,22 @@ class C02(HistoryProperty):
         dg = U.DictGen(rng, cfg)
         dg.MUTATIONS = ["repeat"] * 4 + ["never"] * 3 + ["permute"] * 3 + ["change", "change", "delete", "add", "sibling", "fresh", "template"]
         ops = gen_history(rng, cfg, spec, dictgen=dg)
+        # effects attached AFTER the first evaluations (third-party style: ds.add_effects(...)) must run from then on
+        derived_from = {n["base"] for n in spec["nodes"] if n["k"] == "derive"}
+        cands = [n["id"] for n in spec["nodes"] if n["k"] == "dataset" and n["id"] not in derived_from and n.get("cache") == "recording"]
+        if cands and rng.random() < 0.35:
+            for _ in range(rng.randint(1, 2)):
+                ops.insert(rng.randrange(1, len(ops) + 1), {"op": "add_effects", "ds": rng.choice(cands), "n": 1})
         return {"cfg": cfg, "spec": spec, "ops": ops}
 
     def run_case(self, case):
         res = Result()
         spec = case["spec"]
-        by_name = {n["name"]: n for n in spec["nodes"] if n["k"] == "dataset"}
-        by_id = {n["id"]: n for n in spec["nodes"]}
+        import copy as _copy
+
+        nodes = _copy.deepcopy(spec["nodes"])  # private: the model's effect counts change with add_effects ops
+        by_name = {n["name"]: n for n in nodes if n["k"] == "dataset"}
+        by_id = {n["id"]: n for n in nodes}
         uniform = not any(
             n["k"] in ("withopts", "derive", "map") or (n["k"] == "dataset" and (n.get("options") or n.get("default_options")))
             for n in spec["nodes"]
@@ -110,6 +119,8 @@ class C02(HistoryProperty):
             paths = gen.caller_irrelevant_paths(spec, nid)
             refs = set()
             for op in case["ops"]:
+                if "o" not in op:
+                    continue
                 for p in U.all_paths(op["o"]):
                     v = U.lookup(p, op["o"])[1]
                     if isinstance(v, str):
@@ -125,6 +136,13 @@ class C02(HistoryProperty):
             seen = set()
             checked_repeat = False
             for i, op in enumerate(case["ops"]):
+                if op["op"] == "add_effects":
+                    if op["ds"] in w.prog.obj:
+                        w.do(op)
+                        n = by_id[op["ds"]]
+                        n["effects"] = n.get("effects", 0) + op["n"]  # the model's effect count (by_name shares the node)
+                        res.bump("effects_added_late")
+                    continue
                 before = w.snapshot_counts()
                 log_start = len(w.log.events)
                 out = w.do(op)
@@ -152,9 +170,9 @@ class C02(HistoryProperty):
                     break
             res.stats["events"] = w.log.seq
             res.digest = w.log.digest()
-            res.seen("history", (spec, [op["o"] for op in case["ops"]]))
+            res.seen("history", (spec, [op.get("o") for op in case["ops"]]))
             if checked_repeat:
-                res.seen("history_with_checked_repeat", (spec, [op["o"] for op in case["ops"]]))
+                res.seen("history_with_checked_repeat", (spec, [op.get("o") for op in case["ops"]]))
             res.sample = self.sample_of(case)
         return res
 
